@@ -183,20 +183,52 @@ fn compare_values_with_nulls(
 }
 
 /// Compares two values.
+///
+/// A total preorder over all values, as `sort_by` requires (an inconsistent
+/// comparator makes it panic): strings sort before booleans, booleans before
+/// numbers; integers and floats compare by their exact numeric value, NaN after
+/// every other number; values of any other kind sort first and tie with each other.
 fn compare_values(a: &Value, b: &Value) -> Ordering {
     match (a, b) {
         (Value::Bool(a), Value::Bool(b)) => a.cmp(b),
         (Value::Int64(a), Value::Int64(b)) => a.cmp(b),
-        (Value::Float64(a), Value::Float64(b)) => a.partial_cmp(b).unwrap_or(Ordering::Equal),
+        (Value::Float64(a), Value::Float64(b)) => compare_floats(*a, *b),
         (Value::String(a), Value::String(b)) => a.cmp(b),
-        (Value::Int64(a), Value::Float64(b)) => {
-            (*a as f64).partial_cmp(b).unwrap_or(Ordering::Equal)
-        }
-        (Value::Float64(a), Value::Int64(b)) => {
-            a.partial_cmp(&(*b as f64)).unwrap_or(Ordering::Equal)
-        }
-        _ => Ordering::Equal,
+        (Value::Int64(a), Value::Float64(b)) => compare_int_float(*a, *b),
+        (Value::Float64(a), Value::Int64(b)) => compare_int_float(*b, *a).reverse(),
+        _ => kind_rank(a).cmp(&kind_rank(b)),
     }
+}
+
+/// Position of a value's kind in the sort order across kinds.
+fn kind_rank(value: &Value) -> u8 {
+    match value {
+        Value::String(_) => 1,
+        Value::Bool(_) => 2,
+        Value::Int64(_) | Value::Float64(_) => 3,
+        _ => 0,
+    }
+}
+
+/// Floats in numeric order (-0.0 and 0.0 tie), NaN last.
+fn compare_floats(a: f64, b: f64) -> Ordering {
+    a.partial_cmp(&b)
+        .unwrap_or_else(|| a.is_nan().cmp(&b.is_nan()))
+}
+
+/// An integer against a float by their exact values (converting the integer to
+/// `f64` would round it beyond 2^53), NaN last.
+fn compare_int_float(i: i64, f: f64) -> Ordering {
+    if f.is_nan() || f >= 9_223_372_036_854_775_808.0 {
+        return Ordering::Less;
+    }
+    if f < -9_223_372_036_854_775_808.0 {
+        return Ordering::Greater;
+    }
+    // The integral part of `f` now fits an i64 exactly; its fraction breaks a tie
+    let whole = f.trunc();
+    i.cmp(&(whole as i64))
+        .then_with(|| compare_floats(0.0, f - whole))
 }
 
 impl Operator for SortOperator {
